@@ -88,8 +88,95 @@ def run_native(exe, replay, valgrind=False, timeout=120):
 
 
 # ------------------------------------------------------------------------------------------------ worker
+def c20_ast(fe):
+    """clang's JSON AST of static_permutation.hpp from the scratch copy (regenerated on every run)"""
+    out = os.path.join(fe.dir, 'static_permutation.ast.json')
+    with fe.lock(out):
+        if not os.path.exists(out):
+            src = os.path.join(fe.dir, 'sp.cpp')
+            open(src, 'w').write('#include <covfie/core/utility/static_permutation.hpp>\n')
+            cmd = ['clang++-14', '-std=c++20', '-fsyntax-only', '-Xclang', '-ast-dump=json', '-Xclang',
+                   '-ast-dump-filter=covfie::utility'] + fe.includes() + [src]
+            r = subprocess.run(cmd, stdout=open(out + '.tmp', 'w'), stderr=subprocess.PIPE, text=True)
+            if r.returncode != 0:
+                return None, r.stderr
+            os.rename(out + '.tmp', out)
+    return out, ''
+
+
+def work_c20(spec):
+    t0 = time.time()
+    fe = FE
+    ast, diag = c20_ast(fe)
+    base = {'name': spec['name'], 'harness': 'static_permutation.hpp (clang AST)', 'inst': spec['inst'], 'flavour': 'ast',
+            'mode': 'TEMPLATE', 'spec': spec}
+    if ast is None:
+        ok, gd, gc = g20_compiles(fe)
+        r = dict(base, verdict='inconclusive' if ok else 'illformed', inconclusive=['clang cannot build the AST: ' + first_error(diag)] if ok else [],
+                 failures=[] if ok else [{'kind': 'ILL-FORMED', 'what': first_error(gd), 'site': None, 'inputs': [], 'ufs': []}],
+                 n_failures=0 if ok else 1, asserts={}, paths=0, instrs=0, queries={}, solver_s=0, wall_s=0, functions=[], externals=[], traces=[])
+        return r
+    op = os.path.join(fe.dir, spec['name'] + '.out.json')
+    args = [sys.executable, os.path.join(os.path.dirname(os.path.abspath(__file__)), 'tmpl.py'), ast] + spec['args'] + [op]
+    try:
+        p = subprocess.run(args, stdout=subprocess.PIPE, stderr=subprocess.PIPE, text=True, timeout=spec.get('timeout', 900))
+        if p.returncode == 0 and os.path.exists(op):
+            r = json.load(open(op))
+        else:
+            r = {'verdict': 'inconclusive', 'inconclusive': [f'template evaluator failed rc={p.returncode}: {p.stderr[-300:]}'], 'failures': [],
+                 'n_failures': 0, 'asserts': {}, 'paths': 0, 'instrs': 0, 'queries': {}, 'solver_s': 0, 'functions': [], 'externals': [], 'traces': []}
+    except subprocess.TimeoutExpired:
+        r = {'verdict': 'inconclusive', 'inconclusive': ['template evaluator exceeded its wall-clock limit'], 'failures': [],
+             'n_failures': 0, 'asserts': {}, 'paths': 0, 'instrs': 0, 'queries': {}, 'solver_s': 0, 'functions': [], 'externals': [], 'traces': []}
+    r.update(base)
+    # differential validation: the witness of a proved leaf, instantiated by the real compiler
+    r['diff'] = {'runs': 0, 'mismatches': []}
+    for site, a in r.get('asserts', {}).items():
+        w = a.get('witness')
+        if isinstance(w, dict) and spec.get('diff'):
+            ok, detail = c20_compile_check(fe, spec, w, expect_ok=True)
+            r['diff']['runs'] += 1
+            if not ok:
+                r['diff']['mismatches'].append({'why': detail[:200], 'inputs': w})
+                r.setdefault('inconclusive', []).append('differential validation: g++ disagrees with the evaluator on a witness: ' + detail[:200])
+                if r['verdict'] == 'pass': r['verdict'] = 'inconclusive'
+    r['wall_s'] = round(time.time() - t0, 2)
+    if os.environ.get('VF_VERBOSE'):
+        sys.stderr.write(f'[{r["wall_s"]:7.1f}s] {r["name"]}: {r["verdict"]} leaves={r["paths"]}\n')
+    return r
+
+
+def g20_compiles(fe):
+    src = os.path.join(fe.dir, 'sp.cpp')
+    r = subprocess.run(['g++', '-std=c++20', '-fsyntax-only'] + fe.includes(os.path.join(REPO, 'lib')) + [src], stdout=subprocess.PIPE, stderr=subprocess.STDOUT, text=True)
+    return r.returncode == 0, r.stdout, ''
+
+
+def c20_compile_check(fe, spec, values, expect_ok):
+    """instantiate the real templates with concrete values under g++; returns (as expected?, detail)"""
+    kind = spec['args'][0]
+    if kind == 'sort':
+        xs = [values[f'x{i}'] for i in range(int(spec['args'][1]))]
+        body = ('using S = typename covfie::utility::sort_index_sequence<std::index_sequence<%s>>::type;\n'
+                'static_assert(std::is_same_v<S, std::index_sequence<%s>>, "sorted");\n') % (
+            ', '.join(f'{v}ul' for v in xs), ', '.join(f'{v}ul' for v in sorted(xs)))
+    else:
+        a, b = int(spec['args'][1]), int(spec['args'][2])
+        us = [values[f'u{i}'] for i in range(a)]; vs = [values[f'v{i}'] for i in range(b)]
+        want = 'true' if sorted(us) == sorted(vs) else 'false'
+        body = ('static_assert(covfie::utility::is_permutation<std::index_sequence<%s>, std::index_sequence<%s>>::value == %s, "perm");\n') % (
+            ', '.join(f'{v}ul' for v in us), ', '.join(f'{v}ul' for v in vs), want)
+    src = os.path.join(fe.dir, spec['name'] + f'.chk{abs(hash(str(values))) % 100000}.cpp')
+    open(src, 'w').write('#include <covfie/core/utility/static_permutation.hpp>\n#include <type_traits>\n#include <utility>\n' + body)
+    r = subprocess.run(['g++', '-std=c++20', '-fsyntax-only'] + fe.includes(os.path.join(REPO, 'lib')) + [src], stdout=subprocess.PIPE, stderr=subprocess.STDOUT, text=True)
+    ok = r.returncode == 0
+    return (ok == expect_ok), (body.strip() + ' => ' + ('accepted' if ok else first_error(r.stdout)))
+
+
 def work(spec):
     """compile + symbolic execution + differential validation of the recorded traces"""
+    if spec.get('c20'):
+        return work_c20(spec)
     t0 = time.time()
     fe = FE
     ll, diag = fe.ir(spec['harness'], spec['inst'], spec['flavour'], spec.get('extra', ()), spec.get('defs', ()))
@@ -234,6 +321,12 @@ def replay_failure(fe, res, f, outdir):
     kind = f['kind']
     name = spec['name']
     rp = os.path.join(outdir, f'{name}.{kind}.{f.get("site")}.in')
+    if kind in ('C20-SORT', 'C20-PERM'):
+        vals = {i['name']: i['value'] for i in f['inputs']}
+        ok, detail = c20_compile_check(fe, spec, vals, expect_ok=True)
+        with open(rp, 'w') as fh:
+            fh.write(detail + '\n')
+        return (not ok), rp, 'g++: ' + detail
     if kind == 'ILL-FORMED':
         with open(rp, 'w') as fh:
             fh.write(res.get('command', '') + '\n' + res.get('diagnostic', '') + '\n')
